@@ -1,4 +1,5 @@
 import OnetVerif.Model.C06
+import OnetVerif.Shapes
 /-! Property C06 — a tree learnt from a peer or rebuilt from its serialised form is the same tree.
 Property theorems, the negation witness of the one statement the code does not meet, `_partial`
 variants, non-vacuity examples and the lemmas they need (core Lean only). -/
@@ -713,4 +714,68 @@ example : ∃ (snd rcv : Ovl) (t : Tree) (ro : Roster), ro.Distinct ∧ t.WF ro 
   let t := newTree 1 ro (.node 3 3 4 0 0 (.node 5 5 6 1 0 .nil .nil) .nil)
   exact ⟨localStep {} (.register t), localStep {} (.request 1), t, ro, by unfold Roster.Distinct; decide,
     newTree_wf 1 ro _ (by decide) (by simp [NodesOK, ro]), by decide, by decide, by decide, by decide, by decide⟩
+
+/-! ### the code regions the model stands for
+Regenerated from /repo's source on every run (`harness/cmd/astfacts` → `OnetVerif/Shapes.lean`): the
+calls that matter for synchronisation and data flow, the lock regions and (for decision logic) the
+conditions, in source order.  A re-ordering, a dropped call or a changed condition breaks these
+obligations even when no sampled input or schedule shows a difference; the check then searches for
+a failing input. -/
+theorem c06_shape_Tree_MakeTreeMarshal :
+    Shapes.tree_Tree_MakeTreeMarshal =
+   ["TreeMarshalCopyTree"] := rfl
+
+theorem c06_shape_TreeMarshalCopyTree :
+    Shapes.tree_TreeMarshalCopyTree =
+   ["TreeMarshalCopyTree"] := rfl
+
+theorem c06_shape_TreeMarshal_MakeTree :
+    Shapes.tree_TreeMarshal_MakeTree =
+   ["if:(ro==nil)", "return:nil,xerrors.New(\"\")", "if:!ro.ID.Equal(tm.RosterID)",
+     "return:nil,xerrors.New(\"\")", "if:((len(tm.Children)!=1)||(tm.Children[]==nil))",
+     "return:nil,xerrors.New(\"\")", "Children[].MakeTreeFromList", "if:(err!=nil)",
+     "return:nil,xerrors.Errorf(\"\",err)", "tree.computeSubtreeAggregate", "return:tree,nil"] := rfl
+
+theorem c06_shape_TreeMarshal_MakeTreeFromList :
+    Shapes.tree_TreeMarshal_MakeTreeFromList =
+   ["ro.Search", "if:(idx<0)", "return:nil,xerrors.New(\"\")", "c.MakeTreeFromList",
+     "if:(err!=nil)", "return:nil,xerrors.Errorf(\"\",err)", "return:tn,nil"] := rfl
+
+theorem c06_shape_Overlay_handleSendTree :
+    Shapes.overlay_Overlay_handleSendTree =
+   ["if:((rt.TreeMarshal==nil)||rt.TreeMarshal.TreeID.IsNil())", "return:",
+     "if:(rt.Roster==nil)", "return:", "if:!o.treeStorage.IsRequested(rt.TreeMarshal.TreeID)",
+     "return:", "TreeMarshal.MakeTree", "if:(err!=nil)", "return:", "o.RegisterTree"] := rfl
+
+theorem c06_shape_Overlay_handleSendTreeMarshal :
+    Shapes.overlay_Overlay_handleSendTreeMarshal =
+   ["if:tm.TreeID.IsNil()", "return:", "if:!o.treeStorage.IsRequested(tm.TreeID)", "return:",
+     "if:inst.Roster().ID.Equal(tm.RosterID)", "inst.Roster", "if:(ro==nil)", "io.Wrap",
+     "if:(err!=nil)", "server.Send", "if:(err!=nil)", "o.addPendingTreeMarshal", "return:",
+     "o.handleSendTree"] := rfl
+
+theorem c06_shape_Overlay_checkPendingTreeMarshal :
+    Shapes.overlay_Overlay_checkPendingTreeMarshal =
+   ["pendingTreeLock.Lock", "if:!ok", "pendingTreeLock.Unlock", "return:",
+     "if:(o.treeStorage.Get(tm.TreeID)!=nil)", "tm.MakeTree", "if:(err!=nil)", "o.RegisterTree",
+     "pendingTreeLock.Unlock"] := rfl
+
+theorem c06_shape_Overlay_handleRequestTree :
+    Shapes.overlay_Overlay_handleRequestTree =
+   ["treeStorage.Get", "tree.MakeTreeMarshal", "o.handleRequestTreeDeprecated", "io.Wrap",
+     "server.Send"] := rfl
+
+theorem c06_shape_Overlay_handleSendRoster :
+    Shapes.overlay_Overlay_handleSendRoster =
+   ["ID.IsNil", "o.checkPendingTreeMarshal"] := rfl
+
+theorem c06_shape_treeStorage_IsRequested :
+    Shapes.treestorage_treeStorage_IsRequested =
+   ["ts.Lock", "defer:ts.Unlock", "return:(ok&&(tree==nil))"] := rfl
+
+theorem c06_shape_treeStorage_Set :
+    Shapes.treestorage_treeStorage_Set =
+   ["ts.Lock", "defer:ts.Unlock", "ts.cancelDeletion"] := rfl
+
+
 end C06
